@@ -109,7 +109,8 @@ def step(kind, population):
     return body
 
 
-OPS = (["reg-dev-A", "reg-dev-B", "reg-dev-ALL", "reg-c1", "reg-c2", "unreg-c1", "unreg-c2", "nop"]
+OPS = (["reg-dev-A", "reg-dev-B", "reg-dev-ALL", "reg-c1", "reg-c2", "unreg-c1", "unreg-c2", "nop",
+        "send-A", "send-B"]   # earlier traffic must not change later routing
        + [f"blob-{c}-{n}-{p}" for c in ("c0", "c1") for n in ("A", "B") for p in ("Never", "Also", "Only")])
 
 
@@ -155,6 +156,8 @@ def history(kind, k):
                     reg_clients.remove(c)
                 for key in [key for key in pols if key[0] is c]:
                     del pols[key]
+            elif op.startswith("send-"):
+                router.process_message(make_message("GetProperties", op[5:]), sender=cl["c0"])
             elif op.startswith("blob-"):
                 _, cn, n, p = op.split("-")
                 c = cl[cn]
